@@ -114,7 +114,9 @@ ANCHORS = {
         NML: ["Cell.get_actual_proximal", "Cell.get_ordered_segments_in_groups", "Cell.get_segment_adjacency_list",
               "Cell.get_graph", "Cell.get_distance", "Cell.get_all_distances_from_segment", "Cell.get_segments_at_distance",
               "Cell.get_branching_points", "Cell.get_extremeties", "Cell.get_morphology_root",
-              "Cell.get_segment_location_info", "Cell.get_segment_children", "Cell.get_segment_ids_vs_segments"],
+              "Cell.get_segment_location_info", "Cell.get_segment_children", "Cell.get_segment_ids_vs_segments",
+              # second pass: the two helpers every edge weight / path length goes through
+              "Cell.get_segment_length", "Cell.get_segment"],
     },
     "C14": {
         NML: ["Cell.get_all_segments_in_group", "Cell.optimise_segment_group", "Cell.optimise_segment_groups",
